@@ -1,0 +1,21 @@
+// +build verif
+
+package cmd
+
+// Verification hooks (build tag "verif"): constructors for the three
+// unexported agent task factories. Add-only; with the tag off this file is
+// not compiled.
+
+import (
+	"github.com/bbva/qed/gossip"
+	"github.com/bbva/qed/log"
+)
+
+// VerifAuditorFactory is the auditor's membership task factory.
+func VerifAuditorFactory() gossip.TaskFactory { return membershipFactory{log.L()} }
+
+// VerifMonitorFactory is the monitor's incremental task factory.
+func VerifMonitorFactory() gossip.TaskFactory { return incrementalFactory{log.L()} }
+
+// VerifPublisherFactory is the publisher's task factory.
+func VerifPublisherFactory() gossip.TaskFactory { return publisherFactory{log.L()} }
